@@ -52,7 +52,7 @@ def IView.outerObject (s : SchemaD) (fx : Fixes) (w : IView) : Option String :=
 
 /-- does the scalar's `parse_literal` accept the literal? Specified scalars: the table of `schema/scalars.py`
     (`Int` within 32 bits; `Float` takes ints; `ID` takes strings and ints). Custom scalars (built from SDL,
-    `parse_literal = node.value`) take every literal that has a `.value` -/
+    `parse_literal = _untyped_literal`, /repo a2b8a10) take every literal: `null`, list and object literals included -/
 def scalarAccepts (scalar : String) (v : Value) : Bool :=
   if specifiedScalars.contains scalar then
     match scalar, v with
@@ -66,7 +66,7 @@ def scalarAccepts (scalar : String) (v : Value) : Bool :=
     | _, _ => false
   else
     match v with
-    | .obj _ | .list _ | .null | .var _ => false
+    | .var _ => false
     | _ => true
 
 /-- a literal where a scalar is expected -/
@@ -88,8 +88,11 @@ def valueNodeOk (s : SchemaD) (fx : Fixes) : Node → IView → Prop
       (isEnum s it.base = false → isScalar s it.base = true ∧ scalarAccepts it.base (.enum x) = true)
   /- an object literal: the expected type is an input object and every required field is given -/
   | .value (.obj fs), w =>
-    ∀ it, w.input = some it → isInputObject s it.base = true ∧
-      ∀ fd ∈ inputFields s it.base, ArgD.required fd = true → fd.name ∈ fs.map (·.name)
+    ∀ it, w.input = some it →
+      (isInputObject s it.base = true ∧
+        ∀ fd ∈ inputFields s it.base, ArgD.required fd = true → fd.name ∈ fs.map (·.name)) ∨
+      /- or a (custom) scalar that takes object literals -/
+      (isInputObject s it.base = false ∧ isScalar s it.base = true ∧ scalarAccepts it.base (.obj fs) = true)
   /- a field of an object literal whose expected type is a known input object: the field is defined (with an
      input type) -/
   | .objField _, w => w.input = none → w.outerObject s fx = none
